@@ -8,6 +8,7 @@ import (
 	"strconv"
 
 	"verifharness/drv/c05"
+	"verifharness/drv/c06"
 	"verifharness/drv/c11"
 	"verifharness/drv/c14"
 	"verifharness/drv/c15"
@@ -59,6 +60,8 @@ func main() {
 		c11.RunNested(os.Args[2])
 	case "c05":
 		c05.Run(os.Args[2], os.Args[3])
+	case "c06":
+		c06.Run(os.Args[2], os.Args[3])
 	case "c19x":
 		a := os.Args
 		c19.Explicit(a[2], a[3], atoi(a[4]), atoi(a[5]), atoi(a[6]), a[7] == "1")
